@@ -151,14 +151,32 @@ def _param_used_as_set(ctx, fi: FuncInfo, pname: str, depth: int = 0) -> Optiona
     return f"parameter {pname!r} of {fi.name}() is only put into sets, tested or walked by order-insensitive loops"
 
 
-def _key_is_injective(key: ast.AST) -> bool:
+def _key_is_injective(key: ast.AST, prog: Any = None, fi: Any = None) -> bool:
     """Reviewed forms of sort keys that identify an element: the element itself / its text, a class by (module, name) or
-    qualified name, an enum member by name or value."""
+    qualified name, an enum member by name or value — as a lambda, or as a named function of one argument that returns one."""
     if isinstance(key, ast.Name) and key.id in ("str", "repr"):
         return True
+    body = v = None
     if isinstance(key, ast.Lambda) and len(key.args.args) == 1:
         v = key.args.args[0].arg
         body = key.body
+    elif prog is not None and fi is not None and isinstance(key, (ast.Name, ast.Attribute)):
+        target = None
+        if isinstance(key, ast.Attribute) and isinstance(key.value, ast.Name) and key.value.id in ("self", "cls") and fi.cls is not None:
+            target = prog.lookup_method(fi.cls.qual, key.attr)
+        elif isinstance(key, ast.Name):
+            nd = next((x for x in ast.walk(fi.node) if isinstance(x, ast.FunctionDef) and x is not fi.node and x.name == key.id), None)
+            if nd is not None:
+                target = type("F", (), {"node": nd})()
+            else:
+                q = prog.resolve_expr(fi.module, key)
+                target = prog.funcs.get(q) if q else None
+        if target is not None:
+            params = [a.arg for a in target.node.args.args if a.arg not in ("self", "cls")]
+            rets = [x for st in target.node.body for x in ast.walk(st) if isinstance(x, ast.Return)]
+            if len(params) == 1 and len(rets) == 1 and rets[0].value is not None and all(isinstance(st, (ast.Return, ast.Expr)) for st in target.node.body):
+                v, body = params[0], rets[0].value
+    if body is not None and v is not None:
         parts = [unparse(x) for x in (body.elts if isinstance(body, ast.Tuple) else [body])]
         ident = {v, f"str({v})", f"{v}.__qualname__", f"{v}.name", f"{v}.value", f"{v}.identifier"}
         if any(p_ in ident for p_ in parts):
@@ -179,7 +197,7 @@ def classify_use(ctx, fi: FuncInfo, e: ast.AST) -> tuple[str, str]:
             # sorted() is stable: elements with equal keys keep the order of the set, i.e. hash/address order. The key has
             # to tell all elements apart.
             key = next(k.value for k in p.keywords if k.arg == "key")
-            if not _key_is_injective(key):
+            if not _key_is_injective(key, prog, fi):
                 return "sensitive", f"sorted(..., key={short(key, 60)}) over a set: the key does not tell the elements apart (ties keep the set's iteration order)"
         if last in INSENSITIVE_CONSUMERS or d in INSENSITIVE_CONSUMERS:
             return "insensitive", f"consumed by {d}()"
